@@ -47,6 +47,9 @@ def whileFuel {σ : Type} (fuel : Nat) (c : σ → Option Bool) (b : σ → Opti
 
 def fuel : Nat := 1024
 
+/-- `int(f)` for a float `f` translated as an exact rational: truncation toward zero -/
+def ftoi (x : Rat) : Int := if 0 ≤ x then x.floor else x.ceil
+
 theorem u8_id {x : Int} (h0 : 0 ≤ x) (h1 : x < 256) : u8 x = x := by unfold u8; omega
 
 end Starcal.GoSem
